@@ -1,0 +1,78 @@
+//go:build verif
+
+// Contracts for package asmdb, read by /verif/govc (see
+// internal/codegen/verif_contracts.go for the conventions). Not part of a normal build.
+
+package asmdb
+
+import (
+	"strings"
+
+	"github.com/HobbyOSs/gosk/pkg/ng_operand"
+)
+
+func old[T any](x T) T { return x }
+
+// specEncBytes: the number of bytes an encoding row stands for, without prefixes and
+// without a memory displacement: opcode bytes (two hex digits each) + ModR/M + immediate
+// (+ the offset fields of moffs / rel forms). REX/VEX rows do not exist in 16/32-bit code.
+func specEncBytes(e *Encoding) int {
+	n := len(e.Opcode.Byte) / 2
+	if e.ModRM != nil {
+		n += 1
+	}
+	if e.Immediate != nil {
+		n += e.Immediate.Size
+	}
+	if e.DataOffset != nil {
+		n += e.DataOffset.Size
+	}
+	if e.CodeOffset != nil {
+		n += e.CodeOffset.Size
+	}
+	return n
+}
+
+// specEncWF: the shape every row of the table has in 16/32-bit code (no REX/VEX, a
+// non-empty opcode of at most four bytes, field sizes of at most eight bytes).
+func specEncWF(e *Encoding) bool {
+	return e.REX == nil && e.VEX == nil && len(e.Opcode.Byte) >= 2 && len(e.Opcode.Byte) <= 8 &&
+		(e.Immediate == nil || (0 <= e.Immediate.Size && e.Immediate.Size <= 8)) &&
+		(e.DataOffset == nil || (0 <= e.DataOffset.Size && e.DataOffset.Size <= 8)) &&
+		(e.CodeOffset == nil || (0 <= e.CodeOffset.Size && e.CodeOffset.Size <= 8))
+}
+
+// specEncValid: a row with a one-byte immediate (the sign-extended imm8 forms 83 /r ib,
+// 6A ib, 6B /r ib) can only be used if the immediate fits in a signed byte.
+func specEncValid(e *Encoding, fitsSigned8 bool) bool {
+	return !(e.Immediate != nil && e.Immediate.Size == 1 && !fitsSigned8)
+}
+
+//@ func (*Encoding).GetOutputSize
+//@ props C18 C03
+//@ option pure
+//@ requires e != nil && options == nil && specEncWF(e)
+//@ ensures[size] result0 == specEncBytes(e)
+
+//@ func findBestEncodingForSignExtendable
+//@ props C18
+//@ requires a != nil && b != nil && operands != nil
+//@ requires specEncWF(a) && specEncWF(b)
+//@ ensures[sound]    result0 ==> specEncValid(a, operands.ImmediateValueFitsInSigned8Bits()) && (!specEncValid(b, operands.ImmediateValueFitsInSigned8Bits()) || specEncBytes(a) <= specEncBytes(b))
+//@ ensures[complete] specEncValid(a, operands.ImmediateValueFitsInSigned8Bits()) && (!specEncValid(b, operands.ImmediateValueFitsInSigned8Bits()) || specEncBytes(a) < specEncBytes(b)) ==> result0
+
+//@ func findBestEncodingForNonSignExtendable
+//@ props C18
+//@ requires a != nil && b != nil
+//@ requires specEncWF(a) && specEncWF(b)
+//@ ensures[sound]    result0 ==> specEncBytes(a) <= specEncBytes(b)
+//@ ensures[complete] specEncBytes(a) < specEncBytes(b) ==> result0
+
+//@ func isSignExtendable
+//@ props C18
+//@ ensures[set] result0 == (opcode == "ADD" || opcode == "ADC" || opcode == "SUB" || opcode == "SBB" || opcode == "CMP" || opcode == "AND" || opcode == "OR" || opcode == "XOR") || !specIsUpper(opcode)
+
+// specIsUpper: the mnemonic is already upper case (pass 1 and codegen pass upper-case names).
+func specIsUpper(s string) bool { return strings.ToUpper(s) == s }
+
+var _ = ng_operand.CodeIMM
